@@ -159,6 +159,9 @@ func oracleC13(x *Exec, so *StepObs) {
 			fail("recorded-values", mode, fmt.Sprintf("mode %s: new=%s deployed(v%d)=%s recorded=%s expected=%s", mode, js(neu), dep[0], js(old), js(lr.Config), js(want)))
 			return
 		}
+		if !c13SubClauses(x, lr.Manifest, neu, want, x.Plan.Charts[op.Chart].Values, mode, fail) {
+			return
+		}
 		// effective values, read from the probe the chart renders
 		var defaults map[string]interface{}
 		if mode == "reuse" {
@@ -183,12 +186,122 @@ func oracleC13(x *Exec, so *StepObs) {
 			return
 		}
 		delete(got, "global")
+		delete(got, "sub") // the subchart's table is judged by the narrower clauses in c13SubClauses
 		we := asMap(wantEff)
 		delete(we, "global")
+		delete(we, "sub")
 		if !reflect.DeepEqual(stripNulls(got), interface{}(we)) {
 			fail("effective-values", mode, fmt.Sprintf("mode %s: templates saw %s, expected %s (defaults of chart version in force: %s)", mode, js(got), js(we), js(defaults)))
 		}
 	}
+}
+
+// c13SubClauses: what the statement implies for a subchart and for globals, without fixing how defaults of
+// different chart levels merge: (i) a value the user supplies (recorded for the revision) is what every scope it
+// addresses sees — `sub.*` in the subchart, `global.*` in the parent and in the subchart; (ii) a key the user sets
+// to null at this step is not seen with a value in any of those scopes.
+func c13SubClauses(x *Exec, manifest string, neu, want, parentDefaults map[string]interface{}, mode string, fail func(clause, cause, detail string)) bool {
+	sub := probeValuesNamed(manifest, x.Plan.Namespace, "sub-probe")
+	if sub == nil {
+		return true
+	}
+	top := probeValuesNamed(manifest, x.Plan.Namespace, "probe")
+	if top == nil {
+		return true
+	}
+	x.Res.Checks += 2
+	x.Sim.Probe("c13-subchart-judged")
+	type scope struct {
+		name string
+		user interface{}
+		seen interface{}
+	}
+	scopes := func(tree map[string]interface{}) []scope {
+		return []scope{
+			{"subchart .Values", tree["sub"], map[string]interface{}(sub)},
+			{"parent .Values.global", tree["global"], top["global"]},
+			{"subchart .Values.global", tree["global"], sub["global"]},
+		}
+	}
+	var walk func(path string, user, seen interface{}, nulls bool) string
+	walk = func(path string, user, seen interface{}, nulls bool) string {
+		um, ok := user.(map[string]interface{})
+		if !ok {
+			return ""
+		}
+		sm, _ := seen.(map[string]interface{})
+		for _, k := range sortedKeys(um) {
+			uv := um[k]
+			sv, present := sm[k]
+			switch t := uv.(type) {
+			case nil:
+				if nulls && present && sv != nil {
+					return fmt.Sprintf("%s.%s was set to null but is seen as %s", path, k, js(sv))
+				}
+			case map[string]interface{}:
+				if _, isMap := sv.(map[string]interface{}); present && !isMap && sv != nil {
+					continue // table over scalar: resolution not specified
+				}
+				if msg := walk(path+"."+k, t, sv, nulls); msg != "" {
+					return msg
+				}
+			default:
+				if !nulls {
+					if _, isMap := sv.(map[string]interface{}); isMap {
+						continue // scalar over table: resolution not specified
+					}
+					if !present || !reflect.DeepEqual(normJSON(uv), normJSON(sv)) {
+						return fmt.Sprintf("%s.%s was supplied as %s but is seen as %s (present=%v)", path, k, js(uv), js(sv), present)
+					}
+				}
+			}
+		}
+		return ""
+	}
+	for _, sc := range scopes(want) {
+		if msg := walk(sc.name, sc.user, sc.seen, false); msg != "" {
+			fail("user-values-reach-scope", mode, fmt.Sprintf("mode %s: %s; recorded values %s", mode, msg, js(want)))
+			return false
+		}
+	}
+	// (ii) only where the new values stand alone (reset-values, or new values given without a reuse flag) and only for keys
+	// whose default comes from the subchart itself: how a null meets values carried over from earlier revisions, or a
+	// parent-level default of a global, differs between Helm's code paths and is not fixed by the statement.
+	if mode == "reuse" || mode == "reset-then-reuse" || len(neu) == 0 {
+		return true
+	}
+	neuNarrow := map[string]interface{}{"sub": neu["sub"]}
+	if gm, ok := neu["global"].(map[string]interface{}); ok {
+		pd, _ := parentDefaults["global"].(map[string]interface{})
+		ng := map[string]interface{}{}
+		for k, v := range gm {
+			if _, has := pd[k]; !has {
+				ng[k] = v
+			}
+		}
+		neuNarrow["global"] = ng
+	}
+	for _, sc := range scopes(neuNarrow) {
+		if msg := walk(sc.name, sc.user, sc.seen, true); msg != "" {
+			x.Sim.Probe("c13-null-judged")
+			fail("null-removes-key", mode, fmt.Sprintf("mode %s: %s; new values %s", mode, msg, js(neu)))
+			return false
+		}
+	}
+	return true
+}
+
+func probeValuesNamed(manifest, ns, name string) map[string]interface{} {
+	for _, d := range ParseManifest(manifest, ns) {
+		if d.ID.Kind == "ConfigMap" && d.ID.Name == name {
+			s := str(getMap(d.M, "data")["values"])
+			var m map[string]interface{}
+			if json.Unmarshal([]byte(s), &m) == nil {
+				return m
+			}
+		}
+	}
+	return nil
 }
 
 func hasNull(v interface{}) bool {
@@ -289,7 +402,60 @@ func genC13(seed, index uint64, tier string) *Plan {
 		}
 		p.Charts = append(p.Charts, cs)
 	}
-	p.Steps = append(p.Steps, Step{Op: &OpSpec{Op: "install", Chart: 0, Values: g.valueTree(2)}})
+	withSub := g.Chance(0.4)
+	if withSub {
+		// a subchart with its own defaults (also for a global) and its own probe
+		for v := range p.Charts {
+			sc := SubchartSpec{Name: "sub", Values: map[string]interface{}{
+				"s": g.Word(), "t": map[string]interface{}{"u": fmt.Sprint("sub-default-", v), "w": float64(v)},
+				"global": map[string]interface{}{"gk": fmt.Sprint("sub-global-default-", v)},
+			}}
+			sc.Slots = []ResSlot{{Kind: "ConfigMap", Name: "sub-probe", File: "subprobe.yaml", Marker: g.Marker(), Data: map[string]string{"values": "$$json"}}}
+			p.Charts[v].Subcharts = append(p.Charts[v].Subcharts, sc)
+			if g.Chance(0.4) {
+				p.Charts[v].Values["global"] = map[string]interface{}{"pg": fmt.Sprint("parent-global-default-", v)}
+			}
+		}
+	}
+	subVals := func(m map[string]interface{}) map[string]interface{} {
+		if !withSub || m == nil {
+			return m
+		}
+		leaf := func() interface{} {
+			if g.Chance(0.3) {
+				return nil
+			}
+			return g.Word()
+		}
+		if g.Chance(0.5) {
+			sv := map[string]interface{}{}
+			if g.Chance(0.6) {
+				sv["s"] = leaf()
+			}
+			if g.Chance(0.5) {
+				sv["t"] = map[string]interface{}{"u": leaf()}
+			}
+			if g.Chance(0.3) {
+				sv["extra"] = g.Word()
+			}
+			m["sub"] = sv
+		}
+		if g.Chance(0.5) {
+			gv := map[string]interface{}{}
+			if g.Chance(0.6) {
+				gv["gk"] = leaf()
+			}
+			if g.Chance(0.4) {
+				gv["pg"] = leaf()
+			}
+			if g.Chance(0.4) {
+				gv["g2"] = g.Word()
+			}
+			m["global"] = gv
+		}
+		return m
+	}
+	p.Steps = append(p.Steps, Step{Op: &OpSpec{Op: "install", Chart: 0, Values: subVals(g.valueTree(2))}})
 	n := 2 + g.N(6)
 	for i := 0; i < n; i++ {
 		if g.Chance(0.2) {
@@ -304,7 +470,7 @@ func genC13(seed, index uint64, tier string) *Plan {
 		}
 		op := OpSpec{Op: "upgrade", Chart: g.N(nv)}
 		if g.Chance(0.8) {
-			op.Values = g.valueTree(2)
+			op.Values = subVals(g.valueTree(2))
 		}
 		switch g.N(4) {
 		case 0:
